@@ -169,11 +169,16 @@ def handle (j : Json) : Json :=
   let v := parseVal (getD j "value" .null)
   let inDom := hasTypeB Δ t v && wfCase Δ o
   let enc := encode Δ t v
-  let (r, σ) := genRoot Δ o (enoughFuel Δ t) t    -- `gen_finite`: never `nofuel`
-  let excl0 := (if heredAll quotedIn Δ t then ["HasQuoted"] else []) ++ (if heredAll dupIn Δ t then ["DupNames"] else [])
+  -- reuse: the types generated before on the same generator (`genAfter_nil`: none = `genRoot`)
+  let pre := (getArr j "pre").map parseType
+  let fuel := pre.foldl (fun a p => max a (enoughFuel Δ p)) (enoughFuel Δ t)   -- `gen_finite`: never `nofuel` for a single call
+  let (r, σ) := genAfter Δ o fuel pre t
+  let excl0 := (if heredAll quotedIn Δ t then ["HasQuoted"] else []) ++ (if heredAll dupIn Δ t then ["DupNames"] else []) ++
+    (if rootPtrBeforeB pre then ["RootPtrBefore"] else [])
   let optBr := (if all then ["useAll"] else []) ++ (if o.throwCycle then ["opt.throw"] else []) ++ (if o.cust then ["opt.cust"] else []) ++
     (if o.exp then ["opt.export"] else []) ++ (if o.exp && o.expTop then ["opt.exportTop"] else []) ++
-    (if o.exp && o.expGenerics then ["opt.exportGenerics"] else []) ++ (if o.tng.isSome then ["opt.typeNames"] else [])
+    (if o.exp && o.expGenerics then ["opt.exportGenerics"] else []) ++ (if o.tng.isSome then ["opt.typeNames"] else []) ++
+    (if pre.isEmpty then [] else ["reuse"]) ++ (if pre.length > 1 then ["reuse.many"] else [])
   let mayFail := o.throwCycle || o.cust
   let specJ := fun (d : Bool) => jobj [("inDomain", Json.bool d), ("mayFail", Json.bool mayFail), ("accept", Json.bool true), ("resolves", Json.bool true)]
   match r with
